@@ -3,6 +3,8 @@
 From Coq Require Import List Bool Arith ZArith NArith.
 Import ListNotations.
 From AM Require Import Model.Tracker Proofs.TrackerInv.
+From AM Require Import Model.TrackerConc Proofs.TrackerConcLift.
+From AM Require Gen.TrackerLocks.
 
 (* For every history (any number of sessions, logins, cleanups, any interleaving, any scan
    order in RemoteLogin): every emitted event (l, e) is an event of a numeric session s for
@@ -46,3 +48,25 @@ Proof.
     cbn in *; try discriminate;
     injection Hs as <-; injection Hs' as <-; injection Hp as <-; injection Hp' as <-; split; intros; try reflexivity; discriminate.
 Qed.
+
+(* ---------- the same statement for CONCURRENT deliveries ----------
+   The daemon delivers logins, audit events and cleanup from different goroutines.  GENERATED from
+   sessiontracker.go: every exported method of the correlator is one critical section of one mutex
+   (C01_calls_atomic).  Under that mutex every complete execution of every thread system under every
+   schedule writes what the sequential correlator writes on the linearization [lin] (calls in the
+   order they began, each thread's program order kept; Proofs/TrackerConcLemmas.v), so the theorem
+   above holds of every concurrent execution. *)
+Theorem C01_calls_atomic : Gen.TrackerLocks.tracker_calls_locked = true.
+Proof. vm_compute. reflexivity. Qed.
+Print Assumptions C01_calls_atomic.
+
+Theorem C01_identity_concurrent : forall progs sched (l : login) (e : aev),
+  all_done (exec true progs sched) = true ->
+  In (l, e) (s_out (exec true progs sched)) ->
+  let h := lin progs sched in
+  exists s ev0 now0,
+    a_ses e = SId s /\ in_hist e h /\
+    In (Audit ev0 now0) h /\ a_ses ev0 = SId s /\ a_type ev0 = TLogin /\ a_pid ev0 = Some (l_pid l) /\
+    In_login l h.
+Proof. exact identity_concurrent. Qed.
+Print Assumptions C01_identity_concurrent.
